@@ -1,4 +1,6 @@
 import AL.Model.Glob
+import AL.Lemmas.GlobSpace
+import AL.Lemmas.GlobGood
 /-
   C17 — filter patterns are validated exactly by the documented glob syntax.
   Property theorems only; helper lemmas live in AL/Lemmas.
@@ -23,5 +25,89 @@ theorem loop_guard_faithful (isRef : Bool) (st : GState) (h : st.scan.ch = none)
 theorem step_consumes (isRef : Bool) (st : GState) (h : st.scan.ch ≠ none) :
     (validateNext isRef st).2.scan.remaining < st.scan.remaining :=
   validateNext_lt isRef st h
+
+/-! ### Examples use ASCII patterns: one byte per character. -/
+
+/-- ASCII pattern from code points. -/
+def ascii (l : List Nat) : List Sym := l.map fun r => ⟨r, 1, false⟩
+
+/-! ### 1. Every pattern accepted as a ref filter is accepted as a path filter -/
+
+theorem ref_implies_path (src : List Sym) : validateRef src = [] → validatePath src = [] :=
+  Glob.ref_implies_path src
+
+/-- Non-vacuous: `v[0-9]+.*` is an accepted ref filter. -/
+example : validateRef (ascii [118, 91, 48, 45, 57, 93, 43, 46, 42]) = [] := by decide +kernel
+/-- The converse fails: `a b` is a fine path filter but not a ref filter. -/
+example : validatePath (ascii [97, 32, 98]) = [] ∧ validateRef (ascii [97, 32, 98]) ≠ [] := by decide +kernel
+
+/-! ### 2. Columns lie inside the pattern -/
+
+/-- Columns count characters (a BOM included). Every report of `validate` — also those about an
+unexpected EOF — has a column between 0 and the number of characters. (This is one less than the
+bound `src.length + 1` one would expect for EOF reports: `Next` at EOF does not advance.) -/
+theorem column_le (isRef : Bool) (src : List Sym) : ∀ e ∈ validate isRef src, e.col ≤ src.length :=
+  fun e he => (validate_good isRef src e he).1
+
+theorem column_le_ref (src : List Sym) : ∀ e ∈ validateRef src, e.col ≤ src.length :=
+  column_le true src
+
+/-- For path filters the only report outside the character range is the trailing-space report, whose
+column is the *byte* length of the pattern. -/
+theorem column_le_path (src : List Sym) :
+    ∀ e ∈ validatePath src, e.col ≤ src.length ∨ e = ⟨(src.map (·.w)).sum, .trailingSpace⟩ := by
+  intro e he
+  unfold validatePath at he
+  simp only [] at he
+  split at he
+  · left; simp only [List.mem_singleton] at he; subst he; exact Nat.zero_le _
+  · split at he
+    · right; simpa using he
+    · left; exact column_le false src e he
+
+/-- The trailing-space column is counted in bytes while every other column is counted in characters:
+for `é ` (3 bytes, 2 characters) the reported column 3 is outside the 2-character pattern. -/
+theorem trailing_space_col_counterexample :
+    ∃ src : List Sym, ∃ e ∈ validatePath src, ¬ e.col ≤ src.length :=
+  ⟨[⟨233, 2, false⟩, ⟨32, 1, false⟩], ⟨3, .trailingSpace⟩, by decide +kernel, by decide⟩
+
+/-- Non-vacuous: `a[` is reported (missing `]`) at column 2 = number of characters. -/
+example : validate false (ascii [97, 91]) = [⟨2, .unexpected none .classEnd .missing⟩] := by decide +kernel
+
+/-! ### 3. The column is that of the character the message names -/
+
+/-- Whenever a message names a character and the column is not the fallback 0 (used once a line
+break has been read), the named character is the character at the reported (1-based) column.
+`PosW src` says every character occupies at least one byte (true for every decoded string). This
+covers all message kinds, including `invalidRef '\' esc` (reported before the escaped character is
+consumed) and `invalidRef '/' startsWith`. -/
+theorem named_char (isRef : Bool) (src : List Sym) (hw : PosW src) (e : GErr) (he : e ∈ validate isRef src)
+    (ch : Nat) (hn : namedChar e.msg = some ch) (h0 : e.col ≠ 0) :
+    (src[e.col - 1]?).map (·.r) = some ch :=
+  (validate_good isRef src e he).2 ch hn hw h0
+
+theorem named_char_unexpected (isRef : Bool) (src : List Sym) (hw : PosW src) (col ch : Nat) (w : What) (y : Why)
+    (he : ⟨col, .unexpected (some ch) w y⟩ ∈ validate isRef src) (h0 : col ≠ 0) :
+    (src[col - 1]?).map (·.r) = some ch :=
+  named_char isRef src hw _ he ch rfl h0
+
+theorem named_char_invalidRef (isRef : Bool) (src : List Sym) (hw : PosW src) (col ch : Nat) (y : RefWhy)
+    (he : ⟨col, .invalidRef (some ch) y⟩ ∈ validate isRef src) (h0 : col ≠ 0) :
+    (src[col - 1]?).map (·.r) = some ch :=
+  named_char isRef src hw _ he ch rfl h0
+
+/-- Non-vacuous: `[b-a]` names `a` at column 4; `a\x` as a ref names `\` at column 2. -/
+example : validate true (ascii [91, 98, 45, 97, 93]) = [⟨4, .unexpected (some 97) .range (.badRange 98 97)⟩] ∧
+    PosW (ascii [91, 98, 45, 97, 93]) := by
+  refine ⟨by decide +kernel, ?_⟩
+  intro c hc; simp [ascii] at hc; rcases hc with h | h | h | h | h <;> subst h <;> decide
+example : validate true (ascii [97, 92, 120]) = [⟨2, .invalidRef (some 92) .esc⟩] := by decide +kernel
+
+/-- Scanner reports (NUL, invalid UTF-8) name no character, and their column is that of the character
+*before* the offending one (0 when it is the first): the error callback runs while the offending
+character is being read as look-ahead. `a<NUL>` is reported at column 1. -/
+theorem scan_col_counterexample :
+    validate false (ascii [97, 0]) = [⟨1, .scan .nul⟩] ∧ validate false (ascii [0, 97]) = [⟨0, .scan .nul⟩] := by
+  decide +kernel
 
 end AL.C17
